@@ -224,6 +224,24 @@ func genInput(r *RNG, n int, fam string) []byte {
 		for i := range b {
 			b[i] = list[i%len(list)]
 		}
+	case "bigrecords":
+		// a few records of 8 to 100 KiB in an order with repetitions
+		// (X A X X B A ...): matches of tens of KiB, also adjacent repeats
+		k := 2 + r.Intn(3)
+		recs := make([][]byte, k)
+		for i := range recs {
+			recs[i] = genInput(r, r.Pick(8<<10, 32<<10, 32<<10+5, 40000, 64<<10, 100_000), r.pickStr("iid256", "copyback256", "iid16"))
+		}
+		i := 0
+		last := 0
+		for i < n {
+			j := r.Intn(k)
+			if r.Chance(0.35) {
+				j = last
+			}
+			last = j
+			i += copy(b[i:], recs[j])
+		}
 	case "copyback256":
 		// unique strings (literals over the full alphabet) and exact repeats
 		i := 0
